@@ -231,6 +231,31 @@ func TestBounded_C16(t *testing.T) {
 					bViolation(t, "C16", "get-reads", "%s\nGet(%d) read %d nodes, height+1=%d", cfg, k, l, h+1)
 				}
 			}
+			// a range scan that the caller stops at its first entry reads the path to the start
+			// key and at most one more path down to the first entry at or after it
+			m, _ = root.LoadMast(bctx, bCfg(st, nil))
+			st.reset()
+			calls := 0
+			if err := m.SeekIter(bctx, k, func(_, _ interface{}) error { calls++; return ErrIterDone }); err == nil {
+				cases++
+				if l, _ := st.counts(); l > 2*(h+1) || calls > 1 {
+					bViolation(t, "C16", "seekiter-stop-reads", "%s\nSeekIter(%d) stopped by its callback at the first entry read %d nodes (2*(height+1)=%d) and made %d callback calls", cfg, k, l, 2*(h+1), calls)
+				}
+			}
+			// the same through a cursor: Ceil, Get, one step
+			m, _ = root.LoadMast(bctx, bCfg(st, nil))
+			st.reset()
+			if c, err := m.Cursor(bctx); err == nil {
+				if err := c.Ceil(bctx, k); err == nil {
+					if _, _, ok := c.Get(); ok {
+						c.Forward(bctx)
+					}
+					cases++
+					if l, _ := st.counts(); l > 3*(h+1) {
+						bViolation(t, "C16", "cursor-reads", "%s\nCursor Ceil(%d), Get and one Forward read %d nodes, 3*(height+1)=%d", cfg, k, l, 3*(h+1))
+					}
+				}
+			}
 			// insert without a height change: at most 2*(height+1)
 			m, _ = root.LoadMast(bctx, bCfg(st, nil))
 			st.reset()
